@@ -254,6 +254,9 @@ def proofs(ctx):
             return Val("unknown", "HASH[%r](%r)" % (args[0].deref(), args[1].deref()))
         if n.endswith("b64_encode"):
             return Val("unknown", "B64(%r)" % (args[0].deref(),))
+        if cs.fn == "core::iter::traits::iterator::Iterator::next":
+            # a loop over the digest's bytes (hex rendering): its text is not decided here, the loop is stepped over
+            return NONE
         return None
 
     exp = {"Http01": (r"^\?KA$", "None"), "Dns01": (r"^\?B64\(\?HASH\[BaseHashFunction::Sha256\]\(\?KA\)\)$", "None"),
@@ -339,6 +342,43 @@ def format_literals(body):
     return out
 
 
+def strings_in_blocks(body, blocks):
+    """string constants and format-template literals used by the given blocks (promoted constants they reference included)"""
+    import ast
+    out = []
+
+    def from_const(c, depth=0):
+        if not c:
+            return
+        if "str" in c:
+            out.append(c["str"])
+        if "bytes" in c:
+            out.extend(decode_template(bytes(c["bytes"])))
+        elif c.get("ty", "").startswith("&[u8;") and str(c.get("pp", "")).startswith('b"'):
+            try:
+                out.extend(decode_template(ast.literal_eval(c["pp"])))
+            except Exception:
+                pass
+        if c.get("promoted") is not None and depth < 2 and c["promoted"] < len(body.promoted):
+            for pb in body.promoted[c["promoted"]]["blocks"]:
+                scan(pb, depth + 1)
+
+    def scan(blk, depth=0):
+        for st in blk["stmts"]:
+            if st["s"] != "assign":
+                continue
+            for o in [st["rv"].get("op"), st["rv"].get("a"), st["rv"].get("b")] + list(st["rv"].get("ops", [])):
+                if isinstance(o, dict):
+                    from_const(o.get("const"), depth)
+        for o in blk["term"].get("args", []):
+            if isinstance(o, dict):
+                from_const(o.get("const"), depth)
+
+    for i in blocks:
+        scan(body.blocks[i])
+    return out
+
+
 def decode_template(bs):
     out = []
     i = 0
@@ -371,17 +411,41 @@ def wildcard(ctx):
     for c in gi:
         ctx.require(R5, len(c.args) >= 3 and (AUTH, "wildcard") in arg_origins(c, 2).fields, c.where(), "the lookup receives authorization.wildcard", [RC, "wildcard-passed"])
         ctx.require(R5, (AUTH, "identifier") in arg_origins(c, 1).fields, c.where(), "… and authorization.identifier.value", [RC, "identifier-passed"])
+    # the lookup itself is EVALUATED on concrete identifier lists (abstract interpretation with concrete strings and lists, iterator
+    # chains and closures included): a name and its wildcard in both configuration orders x both values of the flag, each alone,
+    # an unrelated name, an IP identifier, and an absent identifier — whatever the shape of the code
     fb = prog.must_body(CERT + "::get_identifier_from_str")
-    used = False
-    for i in fb.live_blocks():
-        for st in fb.blocks[i]["stmts"]:
-            if st["s"] == "assign" and st["rv"]["k"] == "binop" and st["rv"]["op"] in ("Eq", "Ne"):
-                a, bb_ = origins(fb, st["rv"]["a"]), origins(fb, st["rv"]["b"])
-                if a.has_leaf("param:3") or bb_.has_leaf("param:3"):
-                    other = bb_ if a.has_leaf("param:3") else a
-                    if other.via_any("core::str::<impl str>::starts_with"):
-                        used = True
-    ctx.require(R5, used, "%s:%s" % (fb.file, fb.line), "the flag is compared with the configured entry's own wildcard-ness (starts_with \"*.\")", [CERT + "::get_identifier_from_str", "wildcard-compared"])
+    IDENT = "acmed::identifier::Identifier"
+    IDT = "acmed::identifier::IdentifierType"
+    from ..absint import vbool, vstr
+
+    def ident(v, t="Dns"):
+        return struct_val(prog, IDENT, {"id_type": variant(IDT, t), "value": vstr(v), "challenge": marker("CH:" + v), "env": marker("ENV")})
+
+    def lookup(values, name, flag):
+        ids = Val("list", [ident(v, "Ip" if v[0].isdigit() else "Dns") for v in values])
+        r = run(fb, {1: Val("ref", struct_val(prog, CERT, {"identifiers": ids})), 2: Val("ref", vstr(name)), 3: vbool(flag)}, None, max_steps=40000)
+        if r.kind != "return" or r.ret is None:
+            return "?" + r.kind
+        ret = r.ret.deref()
+        if ret.k == "adt" and ret.extra and ret.extra[1] == "Ok":
+            iv = ret.v[0].deref()
+            if iv.k == "adt":
+                x = iv.v[prog.adt_fields(IDENT).index("value")].deref()
+                return x.v if x.k == "str" else "?" + repr(x)
+            return "?" + repr(iv)
+        if ret.k == "adt" and ret.extra and ret.extra[1] == "Err":
+            return "Err"
+        return "?" + repr(ret)
+    N, W = "example.org", "*.example.org"
+    table = [([N, W], N, True, W), ([N, W], N, False, N), ([W, N], N, True, W), ([W, N], N, False, N),
+             ([N], N, True, N), ([N], N, False, N), ([W], N, False, W), ([W], N, True, W),
+             (["a.example.org", N, W], N, True, W), (["a.example.org", W, N], N, False, N), ([W, "other.org"], "other.org", False, "other.org"),
+             (["192.0.2.1", N], "192.0.2.1", False, "192.0.2.1"), ([N, W], "absent.org", False, "Err"), ([], N, False, "Err")]
+    for values, name, flag, want in table:
+        got = lookup(values, name, flag)
+        ctx.require(R5, got == want, "%s:%s" % (fb.file, fb.line), "identifiers %s, authorization for %s with wildcard=%s -> %s (expected %s)" % (values, name, flag, got, want),
+                    [CERT + "::get_identifier_from_str", "lookup", ",".join(values), name, str(flag)])
     for h in b.calls_to(CCH):
         idl = arg_origins(h, 4)
         ctx.require(R5, any(x.is_(CERT + "::get_identifier_from_str") for x in idl.calls), h.where(), "call_challenge_hooks receives the identifier resolved with the flag", [RC, "hooks-identifier"])
@@ -393,19 +457,45 @@ def reverse_dns(ctx):
     prog = ctx.prog
     R6 = ctx.rule("R6", "IP identifiers are validated under their reverse-DNS names (RFC 8738): in-addr.arpa / ip6.arpa, reversed, nibble order")
     gb = prog.must_body("acmed::identifier::Identifier::get_tls_alpn_name")
+    # per address family: the text used on the V4 arm names in-addr.arpa (and not ip6.arpa), on the V6 arm ip6.arpa; the labels
+    # and the zone are joined with '.'
+    arms = {}
+    for i in sorted(gb.live_blocks()):
+        t = gb.term(i)
+        if t["t"] != "switch":
+            continue
+        dl = op_local(t["discr"])
+        for kind, bb_, j, st in gb.defs.get(dl, []):
+            if kind == "stmt" and st["s"] == "assign" and st["rv"]["k"] == "discr" and (st["rv"].get("adt") or "").endswith("IpAddr"):
+                names = {int(v[0]): v[1] for v in st["rv"].get("variants", [])}
+                tg = {names.get(v): x for v, x in t["arms"]}
+                rest = [n for n in names.values() if n not in tg]
+                if len(rest) == 1:
+                    tg[rest[0]] = t["otherwise"]
+                arms = tg
+    zone = {}
+    if set(arms) >= {"V4", "V6"}:
+        r4, r6 = gb.reachable([arms["V4"]]), gb.reachable([arms["V6"]])
+        zone["V4"] = "".join(strings_in_blocks(gb, sorted(r4 - r6)))
+        zone["V6"] = "".join(strings_in_blocks(gb, sorted(r6 - r4)))
     lit = format_literals(gb)
-    ctx.require(R6, ".in-addr.arpa" in lit and ".ip6.arpa" in lit, "%s:%s" % (gb.file, gb.line), "suffixes .in-addr.arpa and .ip6.arpa (%s)" % lit, ["get_tls_alpn_name", "suffixes"])
+    good = "in-addr.arpa" in zone.get("V4", "") and "ip6.arpa" not in zone.get("V4", "") and "ip6.arpa" in zone.get("V6", "") and "in-addr.arpa" not in zone.get("V6", "")
+    dotted = any(x.startswith(".") for x in lit) or "." in lit
+    ctx.require(R6, good and dotted, "%s:%s" % (gb.file, gb.line), "IPv4 -> <labels>.in-addr.arpa, IPv6 -> <labels>.ip6.arpa (V4 arm: %r, V6 arm: %r, format literals %s)" % (zone.get("V4"), zone.get("V6"), lit),
+                ["get_tls_alpn_name", "suffixes"])
     revs = gb.calls_to("core::iter::traits::iterator::Iterator::rev")
     ctx.require(R6, len(revs) >= 2, "%s:%s" % (gb.file, gb.line), "octets are reversed for both address families (%d rev())" % len(revs), ["get_tls_alpn_name", "reversed"])
     nb = prog.must_body("acmed::identifier::u8_to_nibbles_string")
     ops = [(st["lhs"]["l"], st["rv"]["op"], op_const(st["rv"]["b"])) for i in sorted(nb.live_blocks()) for st in nb.blocks[i]["stmts"] if st["s"] == "assign" and st["rv"]["k"] == "binop" and st["rv"]["op"] in ("BitAnd", "Shr")]
-    first = nb.locals_named("first")
-    second = nb.locals_named("second")
+    # the two values printed, in print order (the argument array of the format!): first the low nibble (& 0x0f, no shift), then
+    # the high nibble (>> 4) — found through the formatting arguments, not through the names of the locals
     good = False
-    if first and second:
-        f = origins(nb, first[0])
-        s = origins(nb, second[0])
-        good = "binop:BitAnd" in f.via and "binop:Shr" not in f.via and "binop:Shr" in s.via
+    for i in sorted(nb.live_blocks()):
+        for st in nb.blocks[i]["stmts"]:
+            if st["s"] == "assign" and st["rv"]["k"] == "agg" and st["rv"].get("agg") == "array" and len(st["rv"]["ops"]) == 2 and "fmt::rt::Argument" in nb.local_ty(st["lhs"]["l"]):
+                f = origins(nb, st["rv"]["ops"][0])
+                s_ = origins(nb, st["rv"]["ops"][1])
+                good = "binop:BitAnd" in f.via and "binop:Shr" not in f.via and "binop:Shr" in s_.via
     ctx.require(R6, good, "%s:%s" % (nb.file, nb.line), "IPv6 nibbles: low nibble first, then the high nibble", ["u8_to_nibbles_string", "order"])
     sup = prog.must_body("acmed::identifier::IdentifierType::supported_challenges")
 
